@@ -9,8 +9,10 @@ class StdOutOutput(i_lib.Output):
         if self._line_pending:
             print(' ', end='')
 
-        self._line_pending = True
-        print(output, end='')
+        text = str(output)
+        print(text, end='')
+        # Text that ends with a line break (printf "...\n") leaves no line open.
+        self._line_pending = not text.endswith('\n')
 
     def newline(self):
         print()
